@@ -105,6 +105,7 @@ type Frame struct {
 	depth     int
 	spec      *FuncSpec
 	inDefer   bool // frame was started by rundefers
+	foreachKey map[int]Term // loop ordinal → key yielded by the current iteration's Next
 }
 
 type loopEntry struct {
@@ -153,6 +154,12 @@ func (f *Frame) clone() *Frame {
 		nf.loopsSeen[k] = v
 	}
 	nf.defers = append([]Deferred{}, f.defers...)
+	if f.foreachKey != nil {
+		nf.foreachKey = map[int]Term{}
+		for k, v := range f.foreachKey {
+			nf.foreachKey[k] = v
+		}
+	}
 	nf.parent = f.parent.clone()
 	return &nf
 }
